@@ -11,6 +11,8 @@
 
 #include <csetjmp>
 #include <csignal>
+#include <sys/resource.h>
+
 #include <cstring>
 #include <memory>
 #include <random>
@@ -518,6 +520,12 @@ int main(int argc, char** argv)
   }
   std::mt19937_64 rng(std::atoll(argv[2]));
   bool thorough = std::atoi(argv[3]) != 0;
+  {
+    // a range check that wrongly lets a huge element count through makes RLBox allocate (and
+    // zero) that many elements: keep such an allocation a clean failure instead of an OOM kill
+    struct rlimit rl = { 3ull << 30, 3ull << 30 };
+    setrlimit(RLIMIT_AS, &rl);
+  }
   struct sigaction sa;
   std::memset(&sa, 0, sizeof sa);
   sa.sa_handler = on_segv;
@@ -542,8 +550,14 @@ int main(int argc, char** argv)
   op_buffer_address(rng, thorough);
   op_string(rng);
   op_grant_deny(rng, thorough);
-  sandbox.destroy_sandbox();
+  // the same range checks with exactly ONE sandbox of this type alive (nothing else on the list)
   o1.destroy_sandbox();
+  other = nullptr;
+  op_memset(rng, thorough);
+  op_range<long, 4>(rng, thorough, "long");
+  op_range<char, 1>(rng, thorough, "char");
+  op_buffer_address(rng, thorough);
+  sandbox.destroy_sandbox();
   out.close();
   return 0;
 }
